@@ -2,39 +2,30 @@ package main
 
 import (
 	"fmt"
-	"go/ast"
-	"go/token"
 	"os"
 	"path/filepath"
 	"strconv"
 	"strings"
 
+	"nvharness/lib/go2lean"
 	"nvharness/lib/gofacts"
 )
 
-// constInt returns the value of an untyped/typed integer constant declared with a literal (or a unary minus literal).
-func constInt(f *gofacts.File, name string) (int, bool) {
-	for _, d := range f.AST.Decls {
-		gd, ok := d.(*ast.GenDecl)
-		if !ok || gd.Tok != token.CONST {
-			continue
-		}
-		for _, sp := range gd.Specs {
-			vs := sp.(*ast.ValueSpec)
-			for i, n := range vs.Names {
-				if n.Name != name || i >= len(vs.Values) {
-					continue
-				}
-				src := f.Src(vs.Values[i])
-				v, err := strconv.Atoi(strings.ReplaceAll(src, " ", ""))
-				if err != nil {
-					return 0, false
-				}
-				return v, true
-			}
-		}
+// constInt returns the value of a package-level integer constant of package tex, folded by go/types
+// (so `1 << 9`, `0x40` or `smallBufferSize * 8` are read like the literal they denote).
+func constInt(p *go2lean.Pkg, name string) (int, bool) {
+	if p == nil {
+		return 0, false
 	}
-	return 0, false
+	v, ok := p.ConstValue(name)
+	if !ok {
+		return 0, false
+	}
+	n, err := strconv.Atoi(v)
+	if err != nil {
+		return 0, false
+	}
+	return n, true
 }
 
 type factTable struct {
@@ -53,6 +44,8 @@ func bodies(repo string) (*gofacts.File, map[string]string) {
 		m[n] = f.Body("Buffer", n)
 	}
 	m["NewSizedBuffer"] = f.Body("", "NewSizedBuffer")
+	m["NewBuffer"] = f.Body("", "NewBuffer")
+	m["NewBufferString"] = f.Body("", "NewBufferString")
 	m["makeSlice"] = f.Body("", "makeSlice")
 	return f, m
 }
@@ -68,32 +61,37 @@ func extract(repo, leanDir string) {
 	f, b := bodies(repo)
 	has := gofacts.Has
 
-	// WriteRune: how the rune is compared with utf8.RuneSelf
+	pkg, _ := go2lean.LoadPkg(repo, "tex")
+	eq := func(name, want string) bool { return b[name] == gofacts.Norm(want) }
+
+	// WriteRune: the WHOLE body must be one of the recognised shapes; they differ only in how the rune is compared
+	// with utf8.RuneSelf (and in the blank assignment of WriteByte's result).
 	runeCmp := "unknown"
-	wr := b["WriteRune"]
-	tail := `{ _ = b.WriteByte(byte(r)) return 1, nil }`
-	tail2 := `{ b.WriteByte(byte(r)) return 1, nil }`
-	rest := `b.lastRead = opInvalid m, ok := b.tryGrowByReslice(utf8.UTFMax) if !ok { m = b.grow(utf8.UTFMax) } n = utf8.EncodeRune(b.buf[m:m+utf8.UTFMax], r) b.buf = b.buf[:m+n] return n, nil }`
-	switch {
-	case !has(wr, rest):
-	case strings.HasPrefix(wr, gofacts.Norm(`{ if r < utf8.RuneSelf `+tail)) || strings.HasPrefix(wr, gofacts.Norm(`{ if r < utf8.RuneSelf `+tail2)):
-		runeCmp = "signed"
-	case strings.HasPrefix(wr, gofacts.Norm(`{ if uint32(r) < utf8.RuneSelf `+tail)) || strings.HasPrefix(wr, gofacts.Norm(`{ if uint32(r) < utf8.RuneSelf `+tail2)):
-		runeCmp = "unsigned"
+	wrRest := ` return 1, nil } b.lastRead = opInvalid m, ok := b.tryGrowByReslice(utf8.UTFMax) if !ok { m = b.grow(utf8.UTFMax) } n = utf8.EncodeRune(b.buf[m:m+utf8.UTFMax], r) b.buf = b.buf[:m+n] return n, nil }`
+	for _, call := range []string{`_ = b.WriteByte(byte(r))`, `b.WriteByte(byte(r))`} {
+		if eq("WriteRune", `{ if r < utf8.RuneSelf { `+call+wrRest) {
+			runeCmp = "signed"
+		}
+		if eq("WriteRune", `{ if uint32(r) < utf8.RuneSelf { `+call+wrRest) {
+			runeCmp = "unsigned"
+		}
 	}
 
-	// grow: the slide-down guard
+	// grow: the WHOLE body, with the slide-down guard as the only recognised variation
 	g := b["grow"]
 	slide := "unknown"
-	slideBody := `{ copy(b.buf, b.buf[b.off:]) } else if c > maxInt-c-n { panic(ErrTooLarge) } else {`
+	growShape := func(guard string) string {
+		return `{ m := b.Len() if m == 0 && b.off != 0 { b.Reset() } if i, ok := b.tryGrowByReslice(n); ok { return i } if b.buf == nil && n <= smallBufferSize { b.buf = make([]byte, n, smallBufferSize) return 0 } c := cap(b.buf) if ` + guard + ` { copy(b.buf, b.buf[b.off:]) } else if c > maxInt-c-n { panic(ErrTooLarge) } else { buf := makeSlice(2*c + n) copy(buf, b.buf[b.off:]) b.buf = buf } b.off = 0 b.buf = b.buf[:m+n] return m }`
+	}
 	switch {
-	case has(g, `c := cap(b.buf) if n <= c/2-m `+slideBody):
+	case eq("grow", growShape(`n <= c/2-m`)):
 		slide = "half"
-	case has(g, `c := cap(b.buf) if n <= c-m `+slideBody):
+	case eq("grow", growShape(`n <= c-m`)):
 		slide = "full"
 	}
-	small, okS := constInt(f, "smallBufferSize")
-	minRead, okM := constInt(f, "MinRead")
+	growWhole := slide != "unknown"
+	small, okS := constInt(pkg, "smallBufferSize")
+	minRead, okM := constInt(pkg, "MinRead")
 	if !okS || small < 0 {
 		small = 0
 		slide = "unknown" // a constant the extractor cannot read breaks the tie instead of being guessed
@@ -103,12 +101,13 @@ func extract(repo, leanDir string) {
 	}
 
 	var t factTable
-	t.add("growResetIfEmpty", strings.HasPrefix(g, gofacts.Norm(`{ m := b.Len() if m == 0 && b.off != 0 { b.Reset() } if i, ok := b.tryGrowByReslice(n); ok { return i }`)))
-	t.add("growSmallAlloc", has(g, `return i } if b.buf == nil && n <= smallBufferSize { b.buf = make([]byte, n, smallBufferSize) return 0 } c := cap(b.buf)`))
-	maxIntOK := has(f.Src(f.AST), `const maxInt = int(^uint(0) >> 1)`)
-	t.add("growRealloc", maxIntOK && has(g, `else if c > maxInt-c-n { panic(ErrTooLarge) } else { buf := makeSlice(2*c + n) copy(buf, b.buf[b.off:]) b.buf = buf }`) &&
-		has(b["makeSlice"], `defer func() { if recover() != nil { panic(ErrTooLarge) } }() return make([]byte, n)`))
-	t.add("growTail", strings.HasSuffix(g, gofacts.Norm(`b.buf = buf } b.off = 0 b.buf = b.buf[:m+n] return m }`)))
+	maxIntV, okMax := pkg.ConstValue("maxInt")
+	maxIntOK := okMax && maxIntV == "9223372036854775807"
+	t.add("growResetIfEmpty", growWhole)
+	t.add("growSmallAlloc", growWhole)
+	t.add("growRealloc", growWhole && maxIntOK &&
+		eq("makeSlice", `{ defer func() { if recover() != nil { panic(ErrTooLarge) } }() return make([]byte, n) }`))
+	t.add("growTail", growWhole)
 	t.add("resliceGuard", b["tryGrowByReslice"] == gofacts.Norm(`{ if l := len(b.buf); n <= cap(b.buf)-l { b.buf = b.buf[:l+n] return l, true } return 0, false }`))
 	t.add("truncateShape", b["Truncate"] == gofacts.Norm(`{ if n == 0 { b.Reset() return } b.lastRead = opInvalid if n < 0 || n > b.Len() { panic("bytes.Buffer: truncation out of range") } b.buf = b.buf[:b.off+n] }`))
 	t.add("resetShape", b["Reset"] == gofacts.Norm(`{ b.buf = b.buf[:0] b.off = 0 b.lastRead = opInvalid }`))
@@ -126,14 +125,14 @@ func extract(repo, leanDir string) {
 		b["ReadByte"] == gofacts.Norm(`{ if b.empty() { b.Reset() return 0, io.EOF } c := b.buf[b.off] b.off++ b.lastRead = opRead return c, nil }`) &&
 		b["empty"] == gofacts.Norm(`{ return len(b.buf) <= b.off }`) && b["Len"] == gofacts.Norm(`{ return len(b.buf) - b.off }`) &&
 		b["Bytes"] == gofacts.Norm(`{ return b.buf[b.off:] }`) && b["Cap"] == gofacts.Norm(`{ return cap(b.buf) }`) &&
-		strings.HasSuffix(b["String"], gofacts.Norm(`return string(b.buf[b.off:]) }`)))
+		eq("String", `{ if b == nil { return "<nil>" } return string(b.buf[b.off:]) }`))
 	t.add("readRuneShape", b["ReadRune"] == gofacts.Norm(`{ if b.empty() { b.Reset() return 0, 0, io.EOF } c := b.buf[b.off] if c < utf8.RuneSelf { b.off++ b.lastRead = opReadRune1 return rune(c), 1, nil } r, n := utf8.DecodeRune(b.buf[b.off:]) b.off += n b.lastRead = readOp(n) return r, n, nil }`))
-	t.add("unreadRuneShape", strings.HasPrefix(b["UnreadRune"], gofacts.Norm(`{ if b.lastRead <= opInvalid { return errors.New(`)) &&
-		strings.HasSuffix(b["UnreadRune"], gofacts.Norm(`) } if b.off >= int(b.lastRead) { b.off -= int(b.lastRead) } b.lastRead = opInvalid return nil }`)))
+	t.add("unreadRuneShape", eq("UnreadRune", `{ if b.lastRead <= opInvalid { return errors.New("bytes.Buffer: UnreadRune: previous operation was not a successful ReadRune") } if b.off >= int(b.lastRead) { b.off -= int(b.lastRead) } b.lastRead = opInvalid return nil }`))
 	t.add("unreadByteShape", b["UnreadByte"] == gofacts.Norm(`{ if b.lastRead == opInvalid { return errUnreadByte } b.lastRead = opInvalid if b.off > 0 { b.off-- } return nil }`))
 	t.add("rewriteShape", b["ReWrite"] == gofacts.Norm(`{ copy(b.buf[pos:], p) }`))
-	t.add("sizedShape", b["NewSizedBuffer"] == gofacts.Norm(`{ var buf = make([]byte, size) var b = &Buffer{buf: buf} b.Reset() return b }`))
-	opc := func(n string, v int) bool { x, ok := constInt(f, n); return ok && x == v }
+	t.add("sizedShape", eq("NewSizedBuffer", `{ var buf = make([]byte, size) var b = &Buffer{buf: buf} b.Reset() return b }`) &&
+		eq("NewBuffer", `{ return &Buffer{buf: buf} }`) && eq("NewBufferString", `{ return &Buffer{buf: []byte(s)} }`))
+	opc := func(n string, v int) bool { x, ok := constInt(pkg, n); return ok && x == v }
 	t.add("readOpConsts", opc("opRead", -1) && opc("opInvalid", 0) && opc("opReadRune1", 1) && opc("opReadRune2", 2) && opc("opReadRune3", 3) && opc("opReadRune4", 4) &&
 		has(f.Src(f.AST), "type readOp int8"))
 
